@@ -597,6 +597,13 @@ class PyFE:
         self.call_method(o, 'encode', [buf])
         return buf.b
 
+    def redecode(self, ctl, o, packet, data):
+        """decode a second message into an object that already holds a decoded one"""
+        self.ctl = ctl
+        buf = PyBuf(data)
+        self.call_method(o, 'decode', [buf])
+        return o, buf.r
+
     def to_logical(self, packet, o):
         """language object -> logical values {field: LVal}; see compare.py"""
         from .compare import LInt, LBytes, LList, LObj, LFloat, LMissing
